@@ -569,3 +569,34 @@ def r06_6(cx):
     s = ' '.join(tstr(hh.call_term(bi, t), 200) for bi, t in hh.calls()).replace('core::num::', '')
     ok = 'wrapping_shl(hash, 1)' in s and 'wrapping_add' in s
     cx.report('R06.6', hh, 'hash', ok, 'hash = fold((h << 1) + byte) over the window' if ok else 'hash deviates')
+
+
+@only(X86)
+def r06_7(cx):
+    """membership template: nybble indices are masked before every byte shuffle (pshufb zeroes lanes whose index has bit 7 set)"""
+    n = 0
+    for k in (1, 2, 3, 4):
+        b = cx.body(GEN + 'Mask::<V>::members%d' % k)
+        sh = [(bi, expand_vars(b, b.call_term(bi, t), keep=('chunk', 'masks', 'mask1', 'self'))) for bi, t in b.calls(r'Vector::shuffle_bytes$')]
+        def nyb(t, hi):
+            if not (is_call(t, r'Vector::and$')):
+                return False
+            a, c = t[2]
+            lom = lambda x: is_call(x, r'Vector::splat$') and x[2][0] == ('c', 15)
+            val, m = (a, c) if lom(c) else ((c, a) if lom(a) else (None, None))
+            if val is None:
+                return False
+            if hi:
+                return is_call(val, r'Vector::shift_8bit_lane_right$') and is_var(peel(val[2][0]), 'chunk')
+            return is_var(peel(val), 'chunk')
+        lo_ok = [x for bi, x in sh if tstr(x[2][0]).endswith('.lo') and nyb(x[2][1], False)]
+        hi_ok = [x for bi, x in sh if tstr(x[2][0]).endswith('.hi') and nyb(x[2][1], True)]
+        n += 1
+        ok = len(sh) == 2 * k and len(lo_ok) == k and len(hi_ok) == k
+        # table j is used once as lo and once as hi
+        idxs = sorted(re.findall(r'masks\[(\d)\]', ' '.join(tstr(x[2][0]) for bi, x in sh)))
+        if k > 1:
+            ok = ok and idxs == sorted([str(j) for j in range(k)] * 2)
+        cx.report('R06.7', b, 'nybble-masking', ok, 'members%d: %d shuffles; low tables are indexed by chunk & 0x0F, high tables by (chunk >> 4) & 0x0F' % (k, 2 * k) if ok else
+                  'members%d: a byte shuffle is indexed by an unmasked nybble source (bytes >= 0x80 produce no candidate) or the lo/hi tables are mixed up' % k)
+    cx.floor('R06.7', 'membership functions', n, 4)
